@@ -1,5 +1,6 @@
 import Gpc.Model.Arena
 import Gpc.Proofs.Arena
+import Gpc.Model.DeferStack
 /-!
 # C01 — allocator blocks are exclusive, aligned, big enough; resize/rewind keep data
 
@@ -273,5 +274,73 @@ example : Inv { align := 16, maxSize := 64, nodes :=
 is big enough, and growth beyond `maxSize` records what was obtained -/
 example : (alloc (fun c => 2 * c) (new 16 16 32) 100).1.nodes.head?.map (·.cap) = some 112 := by decide
 example : (alloc (fun c => 2 * c) (new 64 16 100) 80).1.nodes.head?.map (·.cap) = some 100 := by decide
+
+/-! ## the scope's defer stack: an internal block between the caller's blocks
+
+`gp_scope_defer` keeps its entries in blocks it allocates from the scope's own arena, so they sit next to the
+caller's blocks.  By `alloc`'s theorems above that block is exclusive; what remains is that every entry is
+written *inside* it — for every number of defers. -/
+
+theorem DeferStack.inv_init (elem : Nat) : ({} : DeferStack).Inv elem := by simp [DeferStack.Inv]
+
+theorem DeferStack.push_inv (d : DeferStack) (hdr elem : Nat) (h : d.Inv elem) : (d.push hdr elem).next.Inv elem := by
+  unfold DeferStack.Inv DeferStack.push at *
+  split
+  · simp
+  · split
+    · refine ⟨by simp only; omega, rfl⟩
+    · refine ⟨by simp only; omega, h.2⟩
+
+/-- the entry is written inside the block that holds the entries, and a growth copies no more than the
+old block held and no more than the new one takes -/
+theorem DeferStack.push_inside (d : DeferStack) (hdr elem : Nat) (h : d.Inv elem) :
+    (d.push hdr elem).writeOff + elem ≤ (d.push hdr elem).next.room ∧
+    (d.push hdr elem).copied ≤ d.room ∧ (d.push hdr elem).copied ≤ (d.push hdr elem).next.room := by
+  unfold DeferStack.Inv at h
+  obtain ⟨h1, h2⟩ := h
+  unfold DeferStack.push
+  split
+  · simp; omega
+  · rename_i hc
+    split
+    · rename_i hl
+      simp only
+      rw [h2, hl]
+      refine ⟨?_, Nat.le_refl _, ?_⟩
+      · have : d.cap * elem + elem = (d.cap + 1) * elem := by rw [Nat.add_mul, Nat.one_mul]
+        rw [this]; exact Nat.mul_le_mul_right _ (by omega)
+      · exact Nat.mul_le_mul_right _ (by omega)
+    · rename_i hl
+      simp only
+      rw [h2]
+      refine ⟨?_, Nat.zero_le _, Nat.zero_le _⟩
+      have : d.len * elem + elem = (d.len + 1) * elem := by rw [Nat.add_mul, Nat.one_mul]
+      rw [this]; exact Nat.mul_le_mul_right _ (by omega)
+
+/-- the request is exactly the header (first time) plus the room for the entries -/
+theorem DeferStack.push_request (d : DeferStack) (hdr elem : Nat) (n : Nat) (h : (d.push hdr elem).request = some n) :
+    (d.push hdr elem).next.room ≤ n := by
+  unfold DeferStack.push at *
+  split
+  · rename_i hc; simp [hc] at h; simp; omega
+  · rename_i hc
+    split
+    · rename_i hl; simp [hc, hl] at h; simp; omega
+    · rename_i hl; simp [hc, hl] at h
+
+/-- every reachable state: any number of defers -/
+theorem DeferStack.reachable_inv (hdr elem : Nat) (n : Nat) :
+    ((List.range n).foldl (fun d _ => (d.push hdr elem).next) ({} : DeferStack)).Inv elem := by
+  suffices ∀ (l : List Nat) (d : DeferStack), d.Inv elem → (l.foldl (fun d _ => (d.push hdr elem).next) d).Inv elem from
+    this _ _ (DeferStack.inv_init elem)
+  intro l
+  induction l with
+  | nil => intro d h; exact h
+  | cons _ t ih => intro d h; exact ih _ (DeferStack.push_inv d hdr elem h)
+
+
+/-- the fifth defer grows the stack: 128 bytes for 8 entries, 64 copied, the entry written at offset 64 -/
+example : let d4 := (List.range 4).foldl (fun d _ => (d.push 16 16).next) ({} : DeferStack)
+    (d4.push 16 16).request = some 128 ∧ (d4.push 16 16).copied = 64 ∧ (d4.push 16 16).writeOff = 64 := by decide
 
 end Gpc.Arena
